@@ -405,7 +405,8 @@ def dcase_term(im, disk, o, root=ROOT):
 # =============================================================================================
 # Generator: documents over the alphabet of line kinds
 # =============================================================================================
-INNER = ['[act]', '# not a comment', '', 'including x.xly', 'text', '`tick', '  [setup]  ', '\\[x]']
+ODD_BREAKS = ['\x0b', '\x0c', '\x1c', '\x1d', '\x1e', '\x85', '\u2028', '\u2029']  # str.splitlines() boundaries other than \n, \r
+INNER = ['x\u2028y', 'p\x0cq \x85 r', '[act]', '# not a comment', '', 'including x.xly', 'text', '`tick', '  [setup]  ', '\\[x]']
 HEADER_FORMS = ['[%s]', '[%s]', '[%s]', ' [%s]', '[%s]  ', '\t[%s]\t']
 UNKNOWN_HEADERS = ['[nophase]', '[Setup]', '[act2]', '[before assert]', '[a.b]', '[_]']
 BAD_HEADERS = ['[setup', '[setup] x', '[ setup ]', '[]', '[-x]', '[setup]]', '[a b.]', '[', '[act] # c']
@@ -430,6 +431,8 @@ class Gen:
         if ph == 'conf':
             return r.choice(['status = PASS', 'status = PASS ', 'actor = command line'])
         base = r.choice(['def string %s = v%d' % (self.name(), self.n), 'env E%d = x' % self.n, 'def string %s = "a b"' % self.name()])
+        if r.chance(0.12):  # a character that str.splitlines() takes for a line break, inside a quoted string
+            base = r.choice(["def string %s = 'h%si'", 'def string %s = "a%sb c"']) % (self.name(), r.choice(ODD_BREAKS))
         return r.choice(['', '', '', '  ', '\t']) + base + r.choice(['', '', '', '  '])
 
     def multi(self, ph, k=None, closed=True):
@@ -639,6 +642,115 @@ def malformed_directive_cases():
                     end = '\n'
                 yield {ROOT: '[%s]\n' % ph + '\n'.join(body) + end}
                 yield {ROOT: '# c\n[%s]\n%s\nincluding inc.xly\n%s\n' % (ph, ok, ok), 'inc.xly': '\n'.join(body) + end}
+
+
+# ---- printed reports: chain of "FILE, line N" entries --------------------------------------------------
+REPORT_KINDS = [
+    ('syntax', 'setup', ['no-such-instruction arg']),
+    ('fail', 'assert', ['exit-code == 72']),
+    ('fail', 'assert', ["stdout equals 'h\u2028i'"]),
+    ('fail', 'assert', ['stdout equals <<EOF', 'x\x0cy', 'EOF']),
+    ('hard', 'setup', ['$ exit 1']),
+    ('validation', 'setup', ['file f.txt = -contents-of nonexisting.txt']),
+    ('syntax', 'cleanup', ["def string S = 'a\x85b' superfluous"]),
+]
+REPORT_IDENT = {'syntax': 'SYNTAX_ERROR', 'fail': 'FAIL', 'hard': 'HARD_ERROR', 'validation': 'VALIDATION_ERROR'}
+INCLUDE_STEPS = ['%s', '%s', 'lib/%s', 'lib/deeper/%s', '../sib/%s', 'a/../b/%s']
+
+
+def norm_comps(comps):
+    out = []
+    for c in comps:
+        if c == '..':
+            out = out[:-1]
+        elif c != '.':
+            out.append(c)
+    return out
+
+
+def report_scenario(rng):
+    """(files {normalised path: text}, case path as given, links [(path as written, line)], kind, source lines)"""
+    kind, phase, bad = rng.choice(REPORT_KINDS)
+    cdir = rng.choice([[], ['cases'], ['x', 'cases'], ['cases']])
+    names = ['one.xly', 'two.xly', 'three.xly'][:rng.randint(1, 3) if rng.chance(0.25) else rng.randint(2, 3)]
+    case_comps = cdir + ['main.case']
+    files = {}
+    links = []
+    cur_dir = list(cdir)
+    written = case_comps          # path of the current file as written in the directive (the case: as given)
+    cur_file = case_comps         # normalised path of the current file
+    for k, name in enumerate(names + [None]):
+        pre = [rng.choice(['# c', '', '# another comment']) for _ in range(rng.randint(0, 2))]
+        if k == 0:
+            head = ['[act]', '$ echo hi', '[%s]' % (phase if phase != 'assert' else 'setup')]
+        else:
+            head = []
+        if name is None:
+            body = head + pre + (['[%s]' % phase] if phase == 'assert' else []) + bad
+            links.append((written, len(body) - len(bad) + 1))
+            files['/'.join(cur_file)] = '\n'.join(body) + '\n'
+            break
+        while True:
+            step = rng.choice(INCLUDE_STEPS) % name
+            nxt = norm_comps(cur_dir + step.split('/'))
+            if not step.startswith('..') or cur_dir:
+                break
+        body = head + pre + ['including ' + step] + [rng.choice(['', '# after']) for _ in range(rng.randint(0, 1))]
+        links.append((written, len(head) + len(pre) + 1))
+        files['/'.join(cur_file)] = '\n'.join(body) + '\n'
+        written = step.split('/')
+        # the directory of the next file, lexically as the renderer does it; its real place (no symlinks): normalised
+        cur_dir = norm_comps(cur_dir + step.split('/'))[:-1]
+        cur_file = nxt
+    # intermediate directories named in a/../b must exist
+    extra_dirs = set()
+    d = list(cdir)
+    for (w, _ln) in links[1:]:
+        for i in range(1, len(w)):
+            extra_dirs.add('/'.join(norm_comps(d + w[:i])))
+            if w[i - 1] != '..':
+                extra_dirs.add('/'.join(d + [c for c in w[:i]])) if '..' not in w[:i] else None
+        d = norm_comps(d + w)[:-1]
+    return files, '/'.join(case_comps), links, kind, bad, sorted(x for x in extra_dirs if x)
+
+
+LOC_RE = None
+
+
+def report_entries(err):
+    """[(path, line number, [source lines printed below it])] of a printed report"""
+    import re
+    global LOC_RE
+    if LOC_RE is None:
+        LOC_RE = re.compile(r'^(\S.*), line (\d+)$')
+    lines = err.split('\n')
+    out = []
+    i = 0
+    while i < len(lines):
+        m = LOC_RE.match(lines[i])
+        if m:
+            j = i + 1
+            while j < len(lines) and lines[j] == '':
+                j += 1
+            src = []
+            while j < len(lines) and lines[j].startswith('  '):
+                src.append(lines[j][2:])
+                j += 1
+            out.append((m.group(1), int(m.group(2)), src))
+        i += 1
+    return out
+
+
+def c_path(comps):
+    return clist([ctext(c) for c in comps]) if comps else '(@nil text)'
+
+
+def rcase_term(files, links, entries):
+    fs = clist(['(%s, %s)' % (c_path(name.split('/')), c_lines(split_py(text))) for name, text in sorted(files.items())])
+    ls = clist(['(%s, %s)' % (c_path(w), cN(n)) for w, n in links])
+    obs = clist(['(%s, %s, %s)' % (c_path(p.split('/')), cN(n), c_lines(src)) for p, n, src in entries]) if entries \
+        else '(@nil (path * N * list text))'
+    return '(RCase %s %s %s)' % (fs, ls, obs)
 
 
 # ---- phase blocks -----------------------------------------------------------------------------------
@@ -959,6 +1071,28 @@ def run(ctx, res, scale=1):
         for sub in os.listdir(scratch_root):
             if sub.startswith('exactly-'):
                 shutil.rmtree(os.path.join(scratch_root, sub), ignore_errors=True)
+    # printed reports
+    rterms, rmeta = [], []
+    for _ in range((150 if quick else 1200) * scale):
+        files, case_rel, links, kind, bad, extra_dirs = report_scenario(rng)
+        add_case(files, {}, 'report scenarios, parsed (case in a sub directory, includes in sibling / nested directories)',
+                 root='rel:' + case_rel)
+        disk = Disk(scratch, files)
+        for dname in extra_dirs:
+            os.makedirs(os.path.join(scratch, dname), exist_ok=True)
+        r = impl.run_main(mp, [case_rel], scratch, scratch_root)
+        entries = report_entries(r.err)
+        if r.out.split('\n')[0] != REPORT_IDENT[kind] or r.exception is not None:
+            entries = []  # not the expected kind of outcome: judged as a report without chain (fails the predicate)
+        rterms.append(rcase_term(files, links, entries))
+        rmeta.append((files, case_rel, links, kind, r.exit_code, r.err))
+        res.count('printed reports: ' + kind)
+        res.count('printed reports: inclusion depth %d' % (len(links) - 1))
+        if len(links) >= 3:
+            res.nontrivial.add(('report', tuple(sorted(files.items()))))
+        for sub in os.listdir(scratch_root):
+            if sub.startswith('exactly-'):
+                shutil.rmtree(os.path.join(scratch_root, sub), ignore_errors=True)
     # ParseSource
     psterms, psmeta = [], []
     for _ in range(n_ps):
@@ -981,7 +1115,7 @@ def run(ctx, res, scale=1):
     import time
     res.extra['seconds_generating_and_running_implementation'] = round(time.time() - ctx.t0, 1)
 
-    res.evaluations = len(dterms) + len(pterms) + len(psterms) + len(hterms)
+    res.evaluations = len(dterms) + len(pterms) + len(psterms) + len(hterms) + len(rterms)
     res.samples = [describe(*dmeta[min(len(dmeta) - 1, 700 + k)]) for k in range(3)] + \
                   [{'blocks': pmeta[0][0][ROOT], 'permuted': pmeta[0][1][ROOT], 'verdicts': [pmeta[0][4][0], pmeta[0][5][0]]}] if pmeta else []
 
@@ -1029,6 +1163,21 @@ def run(ctx, res, scale=1):
         s, ops, obs = psmeta[i]
         res.disagreements.append(Failure('correspondence', {'parse_source': s, 'operations': ops, 'observed_states': obs},
                                          'Model.Doc.ps_* differs from ParseSource'))
+    cb, pb, errs = common.run_shards('C07', IMPORTS, 'check_rcase', rterms, shard_size=100, tag='rcases')
+    res.errors += errs
+    for i in pb:
+        files, case_rel, links, kind, code, err = rmeta[i]
+        res.prop_failures.append(Failure('property', {'files': files, 'command': 'exactly ' + case_rel + '   (cwd = directory of the files)',
+                                                      'inclusion_chain (path as written, line)': [['/'.join(w), n] for w, n in links],
+                                                      'exit_code': code, 'stderr': err},
+                                         'an entry "FILE, line N" + source text of the printed report is not true: FILE (relative to '
+                                         'the current directory) does not exist, or line N of it is not the printed text, or the '
+                                         'chain of including files is not the real one'))
+    for i in cb:
+        files, case_rel, links, kind, code, err = rmeta[i]
+        res.disagreements.append(Failure('correspondence', {'files': files, 'command': 'exactly ' + case_rel, 'exit_code': code,
+                                                            'stderr': err},
+                                         'Model.Doc.report_chain differs from the printed chain of locations'))
     cb, pb, errs = common.run_shards('C07', IMPORTS, 'check_hcase', hterms, shard_size=400, tag='hcases')
     res.errors += errs
     for i in pb:
@@ -1071,3 +1220,7 @@ def replay(ctx, payload):
                                                           % pscase_term(s, ops, obs)])
         print('model / check:', out if out else raw[-2000:])
     return 0
+
+
+def gen_tables(ctx):
+    common.source_tie('C07')
